@@ -135,6 +135,13 @@ class Worker:
         rc, out = sh(f"cargo build --release --offline -j{threads}", cwd=self.harness, env=self.env, timeout=1800)
         assert rc == 0, out[-2000:]
 
+    def recreate(self):
+        shutil.rmtree(self.repo, ignore_errors=True)
+        sh(f"git -C {REPO} worktree prune")
+        rc, out = sh(f"git -C {REPO} worktree add --detach {self.repo}")
+        assert rc == 0, out
+        sh(f"cargo test --offline --lib --no-run -j{self.threads}", cwd=self.repo, env=self.env, timeout=1200)
+
     def close(self):
         sh(f"git -C {REPO} worktree remove --force {self.repo}")
         shutil.rmtree(self.base, ignore_errors=True)
@@ -156,7 +163,10 @@ class Worker:
             os.makedirs(f"{self.base}/tmp", exist_ok=True)
             rc, out = sh(f"unshare -m bash -c {json.dumps(inner)}", cwd=self.base, env=self.env, timeout=900)
             if not os.path.exists(path):
-                raise RuntimeError("worktree lost")
+                # the mutant made rivia's own tests delete their working tree: that is a kill, and the
+                # worker needs a new worktree
+                self.recreate()
+                return dict(m, verdict="killed by the suite (the tests deleted their own working tree)")
             if "error" in out and "could not compile" in out:
                 return dict(m, verdict="does not compile")
             mres = re.search(r"test result: \w+\. (\d+) passed; (\d+) failed", out)
@@ -178,7 +188,8 @@ class Worker:
                     return dict(m, verdict=f"machinery exit {rc} in {cid}", detail=out[-400:], secs=round(time.time() - t0))
             return dict(m, verdict="SURVIVED suite and checks", checks=FILE_CHECKS.get(m["file"], []), secs=round(time.time() - t0))
         finally:
-            open(path, "w").write(src)
+            if os.path.exists(os.path.dirname(path)):
+                open(path, "w").write(src)
 
 
 def main():
